@@ -158,6 +158,13 @@ func (c *Ctx) ruleA4(rule string, fn *ssa.Function, isWorker func(*ssa.Call) boo
 				early = false
 			}
 			c.Check(rule, key+"/done-after-work", !early, g.Pos(), "Done() can be reached before the worker call has run: the join would not wait for it")
+			// the goroutine is started for its element and runs it whatever the others did: no way
+			// from its entry to its end round the worker call
+			if _, skip := pathExists(lit, nil, isReturn, func(i2 ssa.Instruction) bool { return i2 == ssa.Instruction(fo.worker) }); skip {
+				c.Check(rule, key+"/worker-on-every-path", false, fo.worker.Pos(), "the goroutine can end without having run its rule or statement (a condition inside the goroutine skips the call): an element scheduled in this stage would not run")
+			} else {
+				c.Check(rule, key+"/worker-on-every-path", true, fo.worker.Pos(), "every path through the goroutine runs the worker call")
+			}
 			// more than one Done on a path would release the barrier early
 			twice := false
 			for _, d := range dones {
